@@ -6,7 +6,7 @@ SCHEDULERS = ("eager", "rr")
 OPTS = dict(multi=True, p_single_group=0.3, alias=True, combiner=True, fsm=True, nested_methods=True, p_fresh=0.96)
 BOUNDS = {"quick": "5 designs with a transaction and a method nested in a body that never runs (uncalled method, condition() branch of an uncalled method, uncalled Connect side, also down a chain; one control design) + exhaustive small family (2 transactions x call through {direct, alias, nonexclusive method, exclusive method, enable_call} in If/Else alternatives: 93 designs, plus 42 designs with two non-exclusive call sites of one exclusive method through the same / different Method objects) + 40 batches x 12 random designs (<=3 transactions + nested, <=5 methods, If/Elif/Else, sibling If, Switch, FSM, enable_call, aliases, combiners, nested bodies), "
                    "both schedulers where applicable; per design all inputs and all register states",
-          "thorough": "400 batches x 25 random designs, VERIF_SEED-seeded"}
+          "thorough": "1600 batches x 25 random designs, VERIF_SEED-seeded"}
 OUTSIDE = OUTSIDE_COMMON
 ASSUMES = ASSUMES_COMMON
 
@@ -16,7 +16,7 @@ def configs(tier, seed):
     # "a nested body / its callees run only with the enclosing body" is this property as well
     from . import c12
 
-    return [dict(dropped=v) for v in DROPPED] + systematic_configs(SCHEDULERS) + c12.deep_configs(tier) + batch_configs(tier, seed, 40, 400, 12 if tier == "quick" else 25, OPTS, SCHEDULERS)
+    return [dict(dropped=v) for v in DROPPED] + systematic_configs(SCHEDULERS) + c12.deep_configs(tier) + batch_configs(tier, seed, 40, 1600, 12 if tier == "quick" else 25, OPTS, SCHEDULERS)
 
 
 DROPPED = ["uncalled-condition", "uncalled-connect-side", "uncalled-connect-side-chain", "uncalled-method", "called (control)"]
